@@ -17,3 +17,8 @@ def rtl_check_msg(msg):
     from pyModeS.extra import rtlreader
     rd = object.__new__(rtlreader.RtlReader)
     return rd._check_msg(msg)
+
+
+def same_object(paths):
+    from symx.replay_server import resolve
+    return resolve(paths[0]) is resolve(paths[1])
